@@ -234,10 +234,11 @@ Record cfg := mkCfg {
   fixC : bool;   (* symbolic link created with the validated (cleaned) target *)
   fixD : bool;   (* unpack refuses a target directory reached through a symbolic link below the working directory *)
   fixA : bool;   (* resolveWritePath returns the cleaned path it validated *)
-  fixS : bool    (* hard link to a symbolic link refused *)
+  fixS : bool;   (* hard link to a symbolic link refused *)
+  fixR : bool    (* link entry that would replace the unpack directory itself refused *)
 }.
-Definition cfg_fixed := mkCfg true true true true true.
-Definition cfg_prefix := mkCfg false false false false false.
+Definition cfg_fixed := mkCfg true true true true true true.
+Definition cfg_prefix := mkCfg false false false false false false.
 
 (* ---------- content/file/utils.go ---------- *)
 
@@ -343,15 +344,18 @@ Definition extract_entry (g : cfg) (cwd : path) (dp : list name) (dirName : str)
   | None => None
   | Some rel =>
     let fp := dp ++ rel in
+    let self := match rel with [] => fixR g | _ => false end in
     match e with
     | EReg _ c => write_at f (Nms fp) c
     | EDir _ => mkdir_all f (Nms fp)
     | EHard _ tgt =>
+      if self then None else
       match ensure_link f dp fp tgt with
       | None => None
       | Some pn => do_link g f cwd fp pn tgt
       end
     | ESym _ tgt =>
+      if self then None else
       match ensure_link f dp fp tgt with
       | None => None
       | Some _ => match tgt with [] => None | _ => do_symlink f fp (sym_node g tgt) end
